@@ -38,6 +38,8 @@ CONSTANTS
   MaxRA,       \* max read_ahead left after a symbol
   Writer,      \* "lzma2" | "lzma1"
   PassExtra,   \* variant, see above
+  MoveKeepsPending,    \* variant: move_window also retains the history of the positions still pending (FALSE = as found)
+  PendingAssertStrict, \* variant: process_pending_bytes asserts pending_size < old (TRUE = as found) instead of <=
   ChunkSize,   \* LZMA2Options::chunk_size clamped to >= Dict; 0 = none
   PresetLen,   \* bytes of preset dictionary copied by set_preset_dict (0 = none)
   N, MaxWrite, \* model checking only: total bytes the caller writes, max bytes per write call
@@ -93,6 +95,10 @@ ProcessPending(s, fin) ==
     THEN Skip([s EXCEPT !.rp = s.rp - s.pe, !.pe = 0], s.pe, fin)
     ELSE s
 
+\* the debug assertion at the end of process_pending_bytes
+PendingAssertFails(s, fin) ==
+  s.pe > 0 /\ s.rp < s.rl /\ (IF PendingAssertStrict THEN ProcessPending(s, fin).pe >= s.pe ELSE ProcessPending(s, fin).pe > s.pe)
+
 \* lowest buffer index whose history the match finder may look back from while re-hashing pending positions
 PendingLow(s) == IF s.pe > 0 /\ s.rp < s.rl THEN s.rp - s.pe + 1 ELSE s.rp + 1
 
@@ -129,7 +135,7 @@ Fill ==
   /\ pc = "loop" /\ ~ShouldIndep
   /\ LET s0 == St
          moved == s0.rp >= BufSize - KeepAfter
-         off0 == s0.rp + 1 - KeepBefore
+         off0 == s0.rp + 1 - KeepBefore - (IF MoveKeepsPending THEN s0.pe ELSE 0)
          off == IF moved THEN off0 - (off0 % Align) ELSE 0          \* & MOVE_BLOCK_ALIGN_MASK
          s1 == [s0 EXCEPT !.rp = s0.rp - off, !.rl = s0.rl - off, !.wp = s0.wp - off]
          len == Min(left, BufSize - s1.wp)
@@ -138,7 +144,8 @@ Fill ==
          s3 == ProcessPending(s2, finishing)
          b1 == Flag(bad, moved /\ (off0 < 0 \/ s0.wp - off < 0), "move_offset_negative")
          \* C15 / C01: positions re-hashed after the move look back up to Dict bytes (BT4::skip compares bytes)
-         b2 == Flag(b1, SkipLooksBack /\ base + off > 0 /\ PendingLow(s2) - Dict < 0, "pending_lookback_before_buffer")
+         b2 == Flag(Flag(b1, SkipLooksBack /\ base + off > 0 /\ PendingLow(s2) - Dict < 0, "pending_lookback_before_buffer"),
+                    PendingAssertFails(s2, finishing), "pending_assert")
      IN /\ readPos' = s3.rp /\ readLimit' = s3.rl /\ writePos' = s3.wp /\ pending' = s3.pe
         /\ base' = base + off
         /\ left' = left - len /\ total' = total + len
@@ -235,19 +242,23 @@ CallFlush(fin) ==
   /\ pc = "idle" /\ ~finishing
   /\ (fin \/ Writer = "lzma2")                  \* LZMAWriter::flush is a no-op
   /\ (TraceMode \/ (fin => total = N))
-  /\ LET s == ProcessPending([St EXCEPT !.rl = writePos - 1], fin)
-     IN readPos' = s.rp /\ readLimit' = s.rl /\ pending' = s.pe
+  /\ LET s0 == [St EXCEPT !.rl = writePos - 1]
+         s == ProcessPending(s0, fin)
+     IN /\ readPos' = s.rp /\ readLimit' = s.rl /\ pending' = s.pe
+        /\ bad' = Flag(bad, PendingAssertFails(s0, fin), "pending_assert")
   /\ finishing' = fin
   /\ pc' = IF Writer = "lzma1" \/ wpend > 0 THEN "flushenc" ELSE "idle"
-  /\ UNCHANGED <<writePos, readAhead, uncomp, wpend, ctotal, left, base, total, emitted, bad>>
+  /\ UNCHANGED <<writePos, readAhead, uncomp, wpend, ctotal, left, base, total, emitted>>
 
 \* start_independent_chunk, first half: set_flushing and drain
 StartIndep ==
   /\ pc = "loop" /\ ShouldIndep
-  /\ LET s == ProcessPending([St EXCEPT !.rl = writePos - 1], FALSE)
-     IN readPos' = s.rp /\ readLimit' = s.rl /\ pending' = s.pe
+  /\ LET s0 == [St EXCEPT !.rl = writePos - 1]
+         s == ProcessPending(s0, FALSE)
+     IN /\ readPos' = s.rp /\ readLimit' = s.rl /\ pending' = s.pe
+        /\ bad' = Flag(bad, PendingAssertFails(s0, FALSE), "pending_assert")
   /\ pc' = "indep"
-  /\ UNCHANGED <<writePos, finishing, readAhead, uncomp, wpend, ctotal, left, base, total, emitted, bad>>
+  /\ UNCHANGED <<writePos, finishing, readAhead, uncomp, wpend, ctotal, left, base, total, emitted>>
 
 \* second half: a brand-new LZMAEncoder (the preset dictionary is not applied again)
 IndepNew ==
@@ -293,6 +304,7 @@ MatchSourceInRange == bad \notin {"match_source_before_buffer", "pending_lookbac
 LookAheadGate      == bad # "lookahead_gate"                 \* C13 / C07
 MoveInRange        == bad # "move_offset_negative"
 NoEmptyChunk       == bad # "empty_chunk"
+PendingAssertHolds == bad # "pending_assert"                 \* C01: the crate's own debug assertion
 
 IndicesInRange ==
   /\ readPos >= -1 /\ writePos >= 0 /\ writePos <= BufSize /\ pending >= 0
